@@ -444,6 +444,8 @@ def normalize_contraction_commutative_canonical_order(
 def normalize_contraction_commute_joint(red_op, bin_op, reduced_vars, mixture, other):
     if red_op is not ops.null and mixture.red_op not in (ops.null, red_op):
         return None  # the two reductions differ and cannot be merged
+    if reduced_vars & mixture.reduced_vars:
+        return None  # two reductions over the same variable do not merge
     return Contraction(
         mixture.red_op if red_op is ops.null else red_op,
         bin_op,
@@ -458,6 +460,8 @@ def normalize_contraction_commute_joint(red_op, bin_op, reduced_vars, mixture, o
 def normalize_contraction_commute_joint(red_op, bin_op, reduced_vars, other, mixture):
     if red_op is not ops.null and mixture.red_op not in (ops.null, red_op):
         return None  # the two reductions differ and cannot be merged
+    if reduced_vars & mixture.reduced_vars:
+        return None  # two reductions over the same variable do not merge
     return Contraction(
         mixture.red_op if red_op is ops.null else red_op,
         bin_op,
@@ -510,7 +514,10 @@ def normalize_contraction_generic_tuple(red_op, bin_op, reduced_vars, terms):
         if not isinstance(v, Contraction):
             continue
 
-        # fuse operations without distributing
+        # fuse operations without distributing; two reductions over the same
+        # variable (a duplicated subterm keeps its bound names) do not merge
+        if reduced_vars & v.reduced_vars:
+            continue
         if (v.red_op is ops.null and bin_op is v.bin_op) or (
             bin_op is ops.null and v.red_op in (red_op, ops.null)
         ):
